@@ -28,13 +28,13 @@ func TestMain(m *testing.M) {
 const (
 	concGoroutines = 8
 	concOpsEach    = 30
-	checkerTimeout = 60 * time.Second // firing is INCONCLUSIVE, never a violation
+	checkerTimeout = 120 * time.Second // firing is INCONCLUSIVE, never a violation
 )
 
 func TestC26(t *testing.T) {
 	r := ev.Start(t, "C26")
 	defer r.Finish()
-	r.Rule("wallets of 3..8 outputs over 2 accounts x 2 assets x vote/no-vote (two thirds in one class; some immature; some only in the pool; in every second wallet some mature outputs confirmed AND unconfirmed under one id; rarely a contract output), stored in GoLevelDB. " +
+	r.Rule("wallets of 3..8 outputs over 2 accounts x 2 assets x vote/no-vote (two thirds in one class; some immature; some only in the pool; in half of the wallets some mature non-vote outputs may be confirmed AND unconfirmed under one id; rarely a contract output), stored in GoLevelDB. " +
 		"seq: 6..14 operations Reserve/ReserveParticular/Cancel/expireReservation(t)/Add-RemoveUnconfirmedUtxo/DB set-delete/height change, amounts chosen at the boundaries of the model's free/reserved/immature sums, each operation and the keeper's tables checked exactly against the set model. " +
 		"seq-huge: the same with amounts in [2^62,2^63). conc: 8 goroutines x 30 operations (+ a locked snapshot after each) stamped by one atomic counter, linearizability checked with porcupine. " +
 		"distinct = (mode, operation, outcome class, selection size / change / pool use / overlap flag)")
@@ -48,18 +48,18 @@ func TestC26(t *testing.T) {
 
 	seq := func(huge bool) func(c *ev.Case) {
 		return func(c *ev.Case) {
-			w := genWorld(c.Rand, c.Index%2 == 1 && !huge, huge)
+			w := genWorld(c.Rand, c.Rand.Bool() && !huge, huge) // overlap wallets: half of the cases, independent of the shard
 			out := runSeqCase(c, c.Rand, w, st, realKeeper, seen)
 			if c.WantSample() {
 				c.Sample(map[string]interface{}{"wallet": out.world, "history": out.history})
 			}
 		}
 	}
-	r.Cases("seq", r.N(3000, 120000), seq(false))
-	r.Cases("seq-huge", r.N(120, 4000), seq(true))
+	r.Cases("seq", r.N(3000, 60000), seq(false))
+	r.Cases("seq-huge", r.N(120, 2000), seq(true))
 
-	r.Cases("conc", r.N(300, 12000), func(c *ev.Case) {
-		w := genWorld(c.Rand, c.Index%2 == 1, false)
+	r.Cases("conc", r.N(300, 6000), func(c *ev.Case) {
+		w := genWorld(c.Rand, c.Rand.Bool(), false)
 		c.Journal(map[string]interface{}{"wallet": w.describe(&w.init), "goroutines": concGoroutines, "ops": concOpsEach})
 		out := runConcCase(c, c.Rand, w, st, realKeeper, concGoroutines, concOpsEach, checkerTimeout)
 		witness := func(detail string) map[string]interface{} {
